@@ -132,6 +132,8 @@ type Plan struct {
 	TailUS  int64     `json:"tail_us"` // quiet time after the last step before the final checks
 	Params  map[string]int64 `json:"params,omitempty"`
 	Note    string    `json:"note,omitempty"`
+	Cands   []CandSpec `json:"cands,omitempty"` // ribsim: candidate paths (C02, C04)
+	Noise   []CandSpec `json:"noise,omitempty"` // ribsim: paths added and removed again (C02)
 }
 
 func (p *Plan) JSON() []byte {
